@@ -198,6 +198,9 @@ def _payload(rng, B: bytes, lb: bytes) -> bytes:
     for i in spots[:3]:
         la = B[:i] + (b"x" if B[i:i + 1] != b"x" else b"y") + B[i + 1:]
         atoms_all += [lb + b"--" + la + lb, lb + b"--" + la + b"--" + lb, lb + b"--" + la]
+    # ... and the boundary in another letter case (equal to the delimiter for a case-insensitive matcher)
+    if B.swapcase() != B:
+        atoms_all += [lb + b"--" + B.swapcase() + lb, lb + b"--" + B.upper() + b"--" + lb, lb + b"--" + B.lower()]
     if lb == b"\n":
         atoms = [a for a in atoms_all if b"\r" not in a]
     elif lb == b"\r":
@@ -423,6 +426,8 @@ CORPUS = [
     # a boundary with a character that is special in regular expressions, and payload lines that equal the delimiter up to
     # that character (a matcher that does not escape the boundary takes them for delimiters)
     (b"a.b", b"--a.b\r\nContent-Disposition: form-data; name=\"f\"; filename=\"x\"\r\n\r\nline1\r\n--axb\r\nline2\r\n--axb--\r\nline3\r\n--a.b\r\nContent-Disposition: form-data; name=\"g\"\r\n\r\nv\r\n--a.b--\r\n"),
+    # payload lines that equal the delimiter up to letter case
+    (b"Bound", b"--Bound\r\nContent-Disposition: form-data; name=\"f\"; filename=\"x\"\r\n\r\nline1\r\n--bound\r\nline2\r\n--BOUND--\r\nline3\r\n--Bound\r\nContent-Disposition: form-data; name=\"g\"\r\n\r\nv\r\n--Bound--\r\n"),
     # a preamble longer than the first part's header block (a search position left over from the PREAMBLE state would
     # skip the blank line that ends the headers)
     (b"B", b"This is a multi-part message in MIME format. Ignore this text.\r\n--Bx\r\n--B\r\nContent-Disposition: form-data; name=\"a\"\r\n\r\nv\r\n--B\r\nContent-Disposition: form-data; name=\"b\"\r\n\r\nw\r\n--B--\r\n"),
